@@ -49,7 +49,7 @@ class C04(Machine):
         labs = gen.labels(rng, n, "plain")
         rooted = rng.choice([True, False, None])
         pat = rng.choice(["dyadic", "dyadic", "int", "float", "mixed_none", "none", "mixed_zero"])
-        trees = [gen.tree_spec(rng, labs, rng.choice(["binary", "binary", "poly", "caterpillar", "balanced", "star", "unifurc"]), pat) for _ in range(3)]
+        trees = [gen.tree_spec(rng, labs, rng.choice(["binary", "binary", "poly", "caterpillar", "balanced", "star", "unifurc", "unifurc_root"]), pat) for _ in range(3)]
         if rng.random() < 0.3:
             trees[1] = trees[0]
         steps = []
@@ -139,6 +139,11 @@ class C04(Machine):
             return True
         if kind == "reseed":
             nd = internals[k % len(internals)]
+            if len(tree._seed_node._child_nodes) == 1 and nd is not tree._seed_node:
+                # a seed of outdegree one would be left behind as a leaf without a taxon
+                tree.suppress_unifurcations()
+                if not any(x is nd for x in rawtree.raw_nodes(tree)) or not nd._child_nodes:
+                    return True     # the chosen node was spliced out: the clean-up is the edit
             if self.rooted:
                 tree.reroot_at_node(nd, update_bipartitions=False)
             else:
